@@ -80,7 +80,7 @@ def make_lines(style, decl, selfl, ltag, stag, ov, other):
         if decl == 3 and i in (1, 4):
             out.append(flip_link(l))
     for i, l in enumerate(out):
-        t = LTAGS[ltag] if i % 2 == 0 else []
+        t = LTAGS[ltag] if (i % 3 != 1) else []  # most links carry the tags, some none (all four orientation kinds occur with tags)
         lines.append("L\t%s\t%s\t%s\t%s\t%dM%s\n" % (l[0], l[1], l[2], l[3], ov, "".join("\t" + x for x in t)))
     if other:
         lines.append("P\tpath1\tt0+,r0+\t*\n")
